@@ -5,7 +5,7 @@ from hypothesis import strategies as st
 import gen
 import model as M
 import oracle
-from common import ModelRun, model_classes, cx, pipeline_guard
+from common import ModelRun, model_classes, cx, pipeline_guard, chi_floor
 from drive import Result
 
 RULE = ("Hypothesis generates one model (N<=4 quick, <=5 thorough) and 2-4 partitions of it (ignored symmetries, default analysis, custom "
@@ -127,7 +127,7 @@ def execute(case, ctx):
                 x = cx(xa[t]); y = cx(xb[t])
                 r, sc = ref.chi4(i, j, k, l, n1, n2, n3, return_scale=True)
                 S = beta ** 3 * sc
-                if not abs(x - y) <= 2e-8 * (abs(r) + S) + 1e-13:
+                if not abs(x - y) <= 2e-8 * (abs(r) + S) + 2 * chi_floor(beta, N):
                     return fail("chi_%d%d%d%d(%d,%d,%d) = %r vs %r" % (i, j, k, l, n1, n2, n3, x, y), "chi", 0, b)
                 if abs(x) > 1e-9 * max(S, 1e-300) and S > 0:
                     chinz = True
